@@ -48,27 +48,33 @@ struct Case {
     wblock: i64,
     /// capacity of the submit channel (0 = what `Connection::new` uses)
     capacity: usize,
+    /// the router has an event sender (control connection); the harness drains the channel
+    events: bool,
+    /// io::ErrorKind of the read / write error ("" = ConnectionReset / BrokenPipe)
+    err_kind: String,
 }
 
-const CUT_KINDS: [&str; 5] = ["eof", "read-error", "write-error", "silence", "silence-after-keepalive"];
+const CUT_KINDS: [&str; 7] = ["eof", "read-error", "write-error", "silence", "silence-after-keepalive", "silence-busy", "silence-hinted"];
 /// the driver itself gives the connection up: more than 1024 stream ids orphaned for longer than a second
 const ORPHAN_OVERFLOW: &str = "orphan-overflow";
-const ORPHANS: usize = 1030;
+const ORPHANS_AT_THRESHOLD: &str = "orphans-at-threshold";
 const BAD_KINDS: [&str; 8] = ["garbage-header", "version-3", "client-direction", "unknown-opcode", "unsolicited-stream", "duplicate-response", "negative-stream", "event-stream"];
+/// only with an event sender configured: a frame on stream -1 that is not a decodable EVENT costs the connection
+const EVENT_BAD_KINDS: [&str; 2] = ["event-malformed", "result-on-event-stream"];
 
 fn is_cut_kind(k: &str) -> bool {
     CUT_KINDS.contains(&k)
 }
 fn is_silence(k: &str) -> bool {
-    k == "silence" || k == "silence-after-keepalive"
+    matches!(k, "silence" | "silence-after-keepalive" | "silence-busy" | "silence-hinted")
 }
 fn breaks_connection(k: &str) -> bool {
-    !matches!(k, "negative-stream" | "event-stream")
+    !matches!(k, "negative-stream" | "event-stream" | "orphans-at-threshold")
 }
 
 impl Case {
     fn to_json(&self, choices: &[usize]) -> Value {
-        json!({"leg":"router-faults","n":self.n,"answer":self.answer,"kind":self.kind,"cut":self.cut,"late":self.late,"coalescing":self.coalescing,"read_chunk":self.read_chunk,"keepalive_everywhere":self.keepalive_everywhere,"prefill":self.prefill,"big":self.big,"wblock":self.wblock,"capacity":self.capacity,"choices":choices})
+        json!({"leg":"router-faults","n":self.n,"answer":self.answer,"kind":self.kind,"cut":self.cut,"late":self.late,"coalescing":self.coalescing,"read_chunk":self.read_chunk,"keepalive_everywhere":self.keepalive_everywhere,"prefill":self.prefill,"big":self.big,"wblock":self.wblock,"capacity":self.capacity,"events":self.events,"err_kind":self.err_kind,"choices":choices})
     }
     fn from_json(v: &Value) -> Case {
         Case {
@@ -84,6 +90,8 @@ impl Case {
             big: v["big"].as_u64().unwrap_or(0) as usize,
             wblock: v["wblock"].as_i64().unwrap_or(-1),
             capacity: v["capacity"].as_u64().unwrap_or(0) as usize,
+            events: v["events"].as_bool().unwrap_or(false),
+            err_kind: v["err_kind"].as_str().unwrap_or("").to_string(),
         }
     }
 }
@@ -110,6 +118,7 @@ fn run_case(case: &Case, ch: &mut Chooser) -> (Result<(), String>, Run) {
             keepalive_timeout: if with_keepalive { Some(Duration::from_millis(KEEPALIVE_TIMEOUT_MS)) } else { None },
             submit_channel_capacity: case.capacity,
             prefill: case.prefill,
+            event_channel_capacity: if case.events { 16 } else { 0 },
         };
         let mut w = World::new(cfg, case.read_chunk);
         if case.wblock >= 0 {
@@ -173,7 +182,11 @@ async fn drive(case: &Case, ch: &mut Chooser, w: &mut World, run: &mut Run) -> R
         frames.push((c, w.response_frame(&h).encode()));
     }
     let breaking = breaks_connection(&case.kind);
-    if case.kind == ORPHAN_OVERFLOW {
+    if case.kind == ORPHAN_OVERFLOW || case.kind == ORPHANS_AT_THRESHOLD {
+        // the limit comes from the driver's own constants: the connection is given up when MORE than `limit` stream ids have
+        // been orphaned for longer than a second - exactly `limit` must be survived, `limit + 1` must not
+        #[allow(non_snake_case)]
+        let ORPHANS = hook::orphan_limits().0 + if case.kind == ORPHAN_OVERFLOW { 1 } else { 0 };
         // ORPHANS further requests are written and then abandoned by their callers; the peer never answers them
         let first = w.callers.len();
         for k in 0..ORPHANS {
@@ -241,8 +254,8 @@ async fn drive(case: &Case, ch: &mut Chooser, w: &mut World, run: &mut Run) -> R
             }
             match case.kind.as_str() {
                 "eof" => w.ctl.set_eof(),
-                "read-error" => w.ctl.set_read_error(std::io::ErrorKind::ConnectionReset),
-                "write-error" => w.ctl.set_write_error(std::io::ErrorKind::BrokenPipe),
+                "read-error" => w.ctl.set_read_error(io_kind(&case.err_kind, std::io::ErrorKind::ConnectionReset)),
+                "write-error" => w.ctl.set_write_error(io_kind(&case.err_kind, std::io::ErrorKind::BrokenPipe)),
                 _ => unreachable!(),
             }
             w.log(format!("fault {} injected ({})", case.kind, if at_once { "together with the bytes" } else { "after the router consumed the bytes" }));
@@ -271,7 +284,10 @@ async fn drive(case: &Case, ch: &mut Chooser, w: &mut World, run: &mut Run) -> R
                 Frame::response(s, OP_RESULT, b"second-answer").encode()
             }
             "negative-stream" => Frame::response(-2, OP_RESULT, b"neg").encode(),
+            "event-stream" if case.events => event_frame(7).encode(),
             "event-stream" => Frame::response(-1, 0x0C, b"\x00\x0fTOPOLOGY_CHANGE").encode(),
+            "event-malformed" => Frame::response(-1, 0x0C, b"\x00\x0fTOPOLOGY_CHANGE").encode(),
+            "result-on-event-stream" => Frame::response(-1, OP_RESULT, b"\x00\x00\x00\x01").encode(),
             other => return Err(format!("harness|unknown kind {other}")),
         };
         bytes.extend_from_slice(&bad);
@@ -305,10 +321,14 @@ async fn drive(case: &Case, ch: &mut Chooser, w: &mut World, run: &mut Run) -> R
     if !breaking {
         // the connection must have survived: the peer now answers everything it still holds, in order
         if w.router_done() || w.error_seen.is_some() {
-            return Err(format!("spurious-break|a frame on a negative stream must be ignored, but the connection broke: {:?}", w.error_seen));
+            return Err(format!("spurious-break|{} must not cost the connection, but it broke: {:?}", if case.kind == ORPHANS_AT_THRESHOLD { "exactly the tolerated number of old orphaned stream ids" } else { "a frame on a negative stream / a well-formed event" }, w.error_seen));
         }
         let mut guard = 0;
-        while !w.held.is_empty() {
+        while let Some(pos0) = w.held.iter().position(|h| h.caller.map(|c| !w.callers[c].cancelled).unwrap_or(true)) {
+            if pos0 != 0 {
+                let h = w.held.remove(pos0);
+                w.held.insert(0, h);
+            }
             let h = w.held[0].clone();
             let f = w.response_frame(&h).encode();
             if let Some(c) = h.caller {
@@ -326,12 +346,25 @@ async fn drive(case: &Case, ch: &mut Chooser, w: &mut World, run: &mut Run) -> R
     } else if is_silence(&case.kind) {
         // nothing happens until the keep-alive machinery notices: advance virtual time in quanta
         let mut answer_keepalives = if case.kind == "silence-after-keepalive" { 1 } else { 0 };
+        if case.kind == "silence-hinted" {
+            // the application asks for an immediate probe (Connection::trigger_keepalive)
+            w.handle.trigger_keepalive();
+            w.log("keep-alive hint".into());
+            w.quiesce(ch, 400 + 20 * w.callers.len()).await?;
+            w.ingest()?;
+        }
+        let mut busy_idx = 0usize;
         let horizon = silence_horizon_ms(&case.kind);
         let mut elapsed = 0;
         while elapsed < horizon {
             vasync::advance(Duration::from_millis(QUANTUM_MS)).await;
             elapsed += QUANTUM_MS;
             w.log(format!("time +{QUANTUM_MS}ms (t={elapsed}ms)"));
+            if case.kind == "silence-busy" {
+                // the application keeps submitting requests the whole time
+                w.start_caller(caller_spec(40 + busy_idx));
+                busy_idx += 1;
+            }
             w.quiesce(ch, 400 + 20 * w.callers.len()).await?;
             w.ingest()?;
             if answer_keepalives > 0 {
@@ -352,6 +385,7 @@ async fn drive(case: &Case, ch: &mut Chooser, w: &mut World, run: &mut Run) -> R
         }
     }
     w.poll_error_receiver()?;
+    w.drain_events();
 
     // ---- oracle
     let mut sig = Vec::new();
@@ -383,7 +417,7 @@ async fn drive(case: &Case, ch: &mut Chooser, w: &mut World, run: &mut Run) -> R
         }
     }
     let err_class = w.error_seen.as_ref().map(|e| classify_error(e)).unwrap_or_else(|| "none".into());
-    run.signature = format!("{}|abandoned={}|router_done={}|error={}", sig.join(","), sig_cancelled, w.router_done(), err_class);
+    run.signature = format!("{}|abandoned={}|router_done={}|error={}|events={}", sig.join(","), sig_cancelled, w.router_done(), err_class, w.events_received);
     if !pending.is_empty() {
         // does it at least complete later? (only to make the report more useful; it is a violation either way)
         let before = pending.len();
@@ -436,6 +470,24 @@ async fn drive(case: &Case, ch: &mut Chooser, w: &mut World, run: &mut Run) -> R
         }
     }
     Ok(())
+}
+
+const IO_KINDS: [&str; 10] = ["ConnectionReset", "ConnectionAborted", "BrokenPipe", "NotConnected", "TimedOut", "Interrupted", "WouldBlock", "UnexpectedEof", "InvalidData", "Other"];
+fn io_kind(name: &str, default: std::io::ErrorKind) -> std::io::ErrorKind {
+    use std::io::ErrorKind::*;
+    match name {
+        "" => default,
+        "ConnectionReset" => ConnectionReset,
+        "ConnectionAborted" => ConnectionAborted,
+        "BrokenPipe" => BrokenPipe,
+        "NotConnected" => NotConnected,
+        "TimedOut" => TimedOut,
+        "Interrupted" => Interrupted,
+        "WouldBlock" => WouldBlock,
+        "UnexpectedEof" => UnexpectedEof,
+        "InvalidData" => InvalidData,
+        _ => Other,
+    }
 }
 
 fn silence_horizon_ms(kind: &str) -> u64 {
@@ -495,15 +547,18 @@ fn cases(thorough: bool) -> Vec<Case> {
             let total: usize = answer.iter().map(|&c| frame_len(c)).sum();
             for &co in &coalescings {
                 for kind in CUT_KINDS {
+                    if matches!(kind, "silence-busy" | "silence-hinted") && co != "yield" {
+                        continue;
+                    }
                     for cut in 0..=total {
                         let lates: Vec<bool> = if kind == "write-error" { vec![true] } else { vec![false, true] };
                         for late in lates {
-                            let chunks: Vec<usize> = vec![0, 1];
+                            let chunks: Vec<usize> = if matches!(kind, "silence-busy" | "silence-hinted") { vec![0] } else { vec![0, 1] };
                             for read_chunk in chunks {
-                                v.push(Case { n, answer: answer.clone(), kind: kind.to_string(), cut, late, coalescing: co.to_string(), read_chunk, keepalive_everywhere: false, prefill: 0, big: 0, wblock: -1, capacity: 0 });
+                                v.push(Case { n, answer: answer.clone(), kind: kind.to_string(), cut, late, coalescing: co.to_string(), read_chunk, keepalive_everywhere: false, prefill: 0, big: 0, wblock: -1, capacity: 0, events: false, err_kind: String::new() });
                                 if thorough && !is_silence(kind) && read_chunk == 0 {
                                     // the same fault with the keep-aliver armed (its select! and timers are then part of the joined router)
-                                    v.push(Case { n, answer: answer.clone(), kind: kind.to_string(), cut, late, coalescing: co.to_string(), read_chunk, keepalive_everywhere: true, prefill: 0, big: 0, wblock: -1, capacity: 0 });
+                                    v.push(Case { n, answer: answer.clone(), kind: kind.to_string(), cut, late, coalescing: co.to_string(), read_chunk, keepalive_everywhere: true, prefill: 0, big: 0, wblock: -1, capacity: 0, events: false, err_kind: String::new() });
                                 }
                             }
                         }
@@ -511,13 +566,16 @@ fn cases(thorough: bool) -> Vec<Case> {
                 }
                 if co == "yield" {
                     for late in [false, true] {
-                        v.push(Case { n, answer: answer.clone(), kind: ORPHAN_OVERFLOW.to_string(), cut: 0, late, coalescing: co.to_string(), read_chunk: 0, keepalive_everywhere: false, prefill: 0, big: 0, wblock: -1, capacity: 0 });
+                        v.push(Case { n, answer: answer.clone(), kind: ORPHAN_OVERFLOW.to_string(), cut: 0, late, coalescing: co.to_string(), read_chunk: 0, keepalive_everywhere: false, prefill: 0, big: 0, wblock: -1, capacity: 0, events: false, err_kind: String::new() });
+                        if n <= 2 {
+                            v.push(Case { n, answer: answer.clone(), kind: ORPHANS_AT_THRESHOLD.to_string(), cut: 0, late, coalescing: co.to_string(), read_chunk: 0, keepalive_everywhere: false, prefill: 0, big: 0, wblock: -1, capacity: 0, events: false, err_kind: String::new() });
+                        }
                     }
                 }
                 for kind in BAD_KINDS {
                     for k in 0..=answer.len() {
                         for late in [false, true] {
-                            v.push(Case { n, answer: answer.clone(), kind: kind.to_string(), cut: k, late, coalescing: co.to_string(), read_chunk: 0, keepalive_everywhere: false, prefill: 0, big: 0, wblock: -1, capacity: 0 });
+                            v.push(Case { n, answer: answer.clone(), kind: kind.to_string(), cut: k, late, coalescing: co.to_string(), read_chunk: 0, keepalive_everywhere: false, prefill: 0, big: 0, wblock: -1, capacity: 0, events: false, err_kind: String::new() });
                         }
                     }
                 }
@@ -534,7 +592,7 @@ fn cases(thorough: bool) -> Vec<Case> {
                     if !thorough && (read_chunk == 4096 || kind == "read-error") && big % 2 == 0 {
                         continue;
                     }
-                    v.push(Case { n: 2, answer, kind: kind.to_string(), cut, late: false, coalescing: "yield".into(), read_chunk, keepalive_everywhere: false, prefill: 0, big, wblock: -1, capacity: 0 });
+                    v.push(Case { n: 2, answer, kind: kind.to_string(), cut, late: false, coalescing: "yield".into(), read_chunk, keepalive_everywhere: false, prefill: 0, big, wblock: -1, capacity: 0, events: false, err_kind: String::new() });
                 }
             }
         }
@@ -556,9 +614,38 @@ fn cases(thorough: bool) -> Vec<Case> {
                         }
                         for (answer, cut) in answers {
                             for late in [false, true] {
-                                v.push(Case { n, answer: answer.clone(), kind: kind.to_string(), cut, late, coalescing: co.to_string(), read_chunk: 0, keepalive_everywhere: kind != "silence" && late, prefill: 0, big: 0, wblock: k as i64, capacity: 0 });
+                                v.push(Case { n, answer: answer.clone(), kind: kind.to_string(), cut, late, coalescing: co.to_string(), read_chunk: 0, keepalive_everywhere: kind != "silence" && late, prefill: 0, big: 0, wblock: k as i64, capacity: 0, events: false, err_kind: String::new() });
                             }
                         }
+                    }
+                }
+            }
+        }
+    }
+    // a control connection (event sender configured): well-formed events are handed to the consumer and change nothing,
+    // anything else on stream -1 costs the connection
+    for n in 1..=2usize {
+        for answer in answer_sequences(n, thorough) {
+            for k in 0..=answer.len() {
+                for late in [false, true] {
+                    for kind in ["event-stream", EVENT_BAD_KINDS[0], EVENT_BAD_KINDS[1], "negative-stream", "unsolicited-stream"] {
+                        v.push(Case { n, answer: answer.clone(), kind: kind.to_string(), cut: k, late, coalescing: "yield".into(), read_chunk: 0, keepalive_everywhere: false, prefill: 0, big: 0, wblock: -1, capacity: 0, events: true, err_kind: String::new() });
+                    }
+                }
+            }
+        }
+    }
+    // every io::ErrorKind a socket read / write can plausibly report (code could branch on the kind, e.g. retry on
+    // Interrupted / WouldBlock / TimedOut): before anything, inside a header, after the answered frames
+    for n in 1..=2usize {
+        for answer in answer_sequences(n, thorough) {
+            let total: usize = answer.iter().map(|&c| frame_len(c)).sum();
+            let mut cuts = vec![0usize, 4.min(total), total];
+            cuts.dedup();
+            for cut in cuts {
+                for ek in IO_KINDS {
+                    for (kind, late) in [("read-error", false), ("read-error", true), ("write-error", true)] {
+                        v.push(Case { n, answer: answer.clone(), kind: kind.to_string(), cut, late, coalescing: "yield".into(), read_chunk: 0, keepalive_everywhere: false, prefill: 0, big: 0, wblock: -1, capacity: 0, events: false, err_kind: ek.to_string() });
                     }
                 }
             }
@@ -573,7 +660,7 @@ fn cases(thorough: bool) -> Vec<Case> {
                 for n in [2usize, 3, 4] {
                     for late in [false, true] {
                         for kind in ["silence", "silence-after-keepalive"] {
-                            v.push(Case { n, answer: vec![], kind: kind.to_string(), cut: 0, late, coalescing: co.to_string(), read_chunk: 0, keepalive_everywhere: false, prefill: 0, big: 0, wblock: k as i64, capacity: 1 });
+                            v.push(Case { n, answer: vec![], kind: kind.to_string(), cut: 0, late, coalescing: co.to_string(), read_chunk: 0, keepalive_everywhere: false, prefill: 0, big: 0, wblock: k as i64, capacity: 1, events: false, err_kind: String::new() });
                         }
                     }
                 }
@@ -581,7 +668,7 @@ fn cases(thorough: bool) -> Vec<Case> {
             // the same with the channel exactly as Connection::new makes it: its real capacity (read back through the hook) + 8 callers
             let real = real_submit_capacity();
             for k in [0usize, f0] {
-                v.push(Case { n: real + 8, answer: vec![], kind: "silence".to_string(), cut: 0, late: true, coalescing: co.to_string(), read_chunk: 0, keepalive_everywhere: false, prefill: 0, big: 0, wblock: k as i64, capacity: 0 });
+                v.push(Case { n: real + 8, answer: vec![], kind: "silence".to_string(), cut: 0, late: true, coalescing: co.to_string(), read_chunk: 0, keepalive_everywhere: false, prefill: 0, big: 0, wblock: k as i64, capacity: 0, events: false, err_kind: String::new() });
             }
         }
     }
@@ -599,7 +686,7 @@ fn cases(thorough: bool) -> Vec<Case> {
                 for cut in cuts {
                     for kind in ["silence", "silence-after-keepalive"] {
                         for late in [false, true] {
-                            v.push(Case { n, answer: answer.clone(), kind: kind.to_string(), cut, late, coalescing: "yield".into(), read_chunk: 0, keepalive_everywhere: false, prefill: 32768 - j, big: 0, wblock: -1, capacity: 0 });
+                            v.push(Case { n, answer: answer.clone(), kind: kind.to_string(), cut, late, coalescing: "yield".into(), read_chunk: 0, keepalive_everywhere: false, prefill: 32768 - j, big: 0, wblock: -1, capacity: 0, events: false, err_kind: String::new() });
                         }
                     }
                 }
@@ -643,7 +730,7 @@ fn main() {
     let thorough = r.tier().is_thorough();
     let forced_bound: Option<u32> = r.args.extra_value("--bound").and_then(|s| s.parse().ok());
     // quick: bound 2 for n<=2 and bound 1 for n=3; thorough: bound 3 throughout
-    let bound_for = |c: &Case| -> u32 { if c.kind == ORPHAN_OVERFLOW || c.prefill > 0 { return if thorough { 1 } else { 0 }; } if c.big > 0 { return 1; } if c.n > 8 { return 0; } if c.wblock >= 0 { return if thorough { 2 } else { 1 }; } forced_bound.unwrap_or(if thorough { 3 } else if c.n <= 2 { 2 } else { 1 }) };
+    let bound_for = |c: &Case| -> u32 { if c.kind == ORPHAN_OVERFLOW || c.kind == ORPHANS_AT_THRESHOLD || c.prefill > 0 { return if thorough { 1 } else { 0 }; } if c.big > 0 { return 1; } if c.n > 8 { return 0; } if c.wblock >= 0 { return if thorough { 2 } else { 1 }; } forced_bound.unwrap_or(if thorough { 3 } else if c.n <= 2 { 2 } else { 1 }) };
     let bound = forced_bound.unwrap_or(if thorough { 3 } else { 1 });
     let audit_every: u64 = if thorough { 16 } else { 4 };
     let all = cases(thorough);
@@ -708,7 +795,7 @@ fn main() {
             }
             if let Err(wt) = &verdict {
                 let (k, t) = split_key(wt);
-                r_ref.violation(&format!("{k}:{}", case.kind), &format!("{t} [case: n={} answered={:?} kind={} cut={} late={} coalescing={} read_chunk={}{}{}{}]", case.n, case.answer, case.kind, if case.cut == usize::MAX { "end".to_string() } else { case.cut.to_string() }, case.late, case.coalescing, case.read_chunk, if case.wblock >= 0 { format!(" peer-stops-reading-after={}B submit-capacity={}", case.wblock, if case.capacity == 0 { "default".to_string() } else { case.capacity.to_string() }) } else { String::new() }, if case.prefill > 0 { format!(" prefilled-ids={}", case.prefill) } else { String::new() }, if case.big > 0 { format!(" big-body={}", case.big) } else { String::new() }), case.to_json(&choices));
+                r_ref.violation(&format!("{k}:{}", case.kind), &format!("{t} [case: n={} answered={:?} kind={} cut={} late={} coalescing={} read_chunk={}{}{}{}]", case.n, case.answer, case.kind, if case.cut == usize::MAX { "end".to_string() } else { case.cut.to_string() }, case.late, case.coalescing, case.read_chunk, if case.wblock >= 0 { format!(" peer-stops-reading-after={}B submit-capacity={}", case.wblock, if case.capacity == 0 { "default".to_string() } else { case.capacity.to_string() }) } else { String::new() }, if case.prefill > 0 { format!(" prefilled-ids={}", case.prefill) } else { String::new() }, format!("{}{}{}", if case.big > 0 { format!(" big-body={}", case.big) } else { String::new() }, if case.events { " event-sender" } else { "" }, if case.err_kind.is_empty() { String::new() } else { format!(" io-kind={}", case.err_kind) })), case.to_json(&choices));
             }
             verdict.map(|_| ())
         });
@@ -744,7 +831,7 @@ fn main() {
     for c in all.iter().filter(|c| c.n == 3 && c.answer.len() == 2).take(2) {
         r.sample(c.to_json(&[]));
     }
-    r.set_rule(&format!("E-ASYNC fault enumeration on the real Connection::router: n=1..3 requests in flight x ordered subsets of answered requests ({}) x EVERY cut offset 0..=len of the response byte stream x {{eof, read-error, write-error(+a later request), silence with keep-alive {KEEPALIVE_INTERVAL_MS}/{KEEPALIVE_TIMEOUT_MS}ms and virtual time advanced past both, silence after one answered keep-alive}} and, after every whole number of frames, x {{garbage header, version 3, client-direction bit, unknown opcode, frame on a stream nobody waits on, second answer on an answered stream, negative stream, event frame}}; plus the driver's own give-up (1030 abandoned requests unanswered for over a second) per answered subset; plus response bodies of 32767/32768/32769/40000/65535/65536/65537/100000 bytes written back-to-back with the next response in one delivery (unlimited / 4096 / 50000-byte reads) before the fault; plus a FULL submit queue at the keep-alive tick (peer silent and not reading; submit-channel capacity 1 with 2..4 callers, and the real capacity read back through the hook + 8 callers); plus 'peer stops reading' (the stream accepts 0 / 5 / one frame / one frame + 5 request bytes, then writes stay pending; 1..2 callers with requests queued, unflushed or half-written; coalescing yield/off) x {{silence + keep-alive timeout, EOF, read error, garbage header, unsolicited stream}}; plus stream-id exhaustion x silent stall x keep-alive (router map pre-filled by 32768-j real allocate calls, j=0,1,2, 1..2 callers, every pre-filled handler must be failed too); x a late request after the fault; every case explored by E-DFS over task scheduling and fault timing (fault together with / after the bytes) up to deviation bound {bound} (n=3) / {} (n<=2). evaluations = executions; distinct_nontrivial = distinct cases in which at the fault some request was completely or partially answered while another (or the same) was still owed. replays for the determinism audit: 1 in {audit_every} executions, full observation trace compared.", "all 1+2+5+16 of them; write coalescing yield/off (thorough: +1ms, + keep-aliver armed during the other faults)", if thorough { bound } else { bound + 1 }));
+    r.set_rule(&format!("E-ASYNC fault enumeration on the real Connection::router: n=1..3 requests in flight x ordered subsets of answered requests ({}) x EVERY cut offset 0..=len of the response byte stream x {{eof, read-error, write-error(+a later request), silence with keep-alive {KEEPALIVE_INTERVAL_MS}/{KEEPALIVE_TIMEOUT_MS}ms and virtual time advanced past both, silence after one answered keep-alive}} and, after every whole number of frames, x {{garbage header, version 3, client-direction bit, unknown opcode, frame on a stream nobody waits on, second answer on an answered stream, negative stream, event frame}}; plus the driver's own give-up (1030 abandoned requests unanswered for over a second) per answered subset; plus response bodies of 32767/32768/32769/40000/65535/65536/65537/100000 bytes written back-to-back with the next response in one delivery (unlimited / 4096 / 50000-byte reads) before the fault; plus every io::ErrorKind in (ConnectionReset, ConnectionAborted, BrokenPipe, NotConnected, TimedOut, Interrupted, WouldBlock, UnexpectedEof, InvalidData, Other) for read and write errors; silence while the application keeps submitting a request every 100 ms, silence with an explicit keep-alive hint; a control connection (event sender) receiving well-formed events / a malformed event / a non-event on stream -1; exactly the tolerated number of old orphans (must survive) and one more (must give up); plus a FULL submit queue at the keep-alive tick (peer silent and not reading; submit-channel capacity 1 with 2..4 callers, and the real capacity read back through the hook + 8 callers); plus 'peer stops reading' (the stream accepts 0 / 5 / one frame / one frame + 5 request bytes, then writes stay pending; 1..2 callers with requests queued, unflushed or half-written; coalescing yield/off) x {{silence + keep-alive timeout, EOF, read error, garbage header, unsolicited stream}}; plus stream-id exhaustion x silent stall x keep-alive (router map pre-filled by 32768-j real allocate calls, j=0,1,2, 1..2 callers, every pre-filled handler must be failed too); x a late request after the fault; every case explored by E-DFS over task scheduling and fault timing (fault together with / after the bytes) up to deviation bound {bound} (n=3) / {} (n<=2). evaluations = executions; distinct_nontrivial = distinct cases in which at the fault some request was completely or partially answered while another (or the same) was still owed. replays for the determinism audit: 1 in {audit_every} executions, full observation trace compared.", "all 1+2+5+16 of them; write coalescing yield/off (thorough: +1ms, + keep-aliver armed during the other faults)", if thorough { bound } else { bound + 1 }));
     r.assume("write error alone is invisible to a router that has nothing to write: that kind always adds a later request, which must make the router notice");
     r.assume("select!-branch randomness inside the router is audited by trace-equal replays, not owned");
     r.finish();
